@@ -871,6 +871,12 @@ class Gen:
                 p = r.choice([p for p in sc.all_props(c) if p["layer"] == 0])
                 return ["setprop", ["obj", i], p["name"], self.hval(TY_OF[p["type"]])]
             owner, sl = r.choice(sc.all_slots(c))
+            # a slot that reads a property (stepDown reads singleStep) is a read like any other: in a handler of a notify
+            # signal, whether a binding fed by the same signal has already written that property is not stated anywhere
+            implicit = {"stepUp": ("singleStep",), "stepDown": ("singleStep",), "reset": ("minimum",)}.get(sl["name"], ())
+            if self.notify_after is not None and any(self.is_bound(i, q) for q in implicit):
+                p = r.choice([p for p in sc.all_props(c) if p["layer"] == 0])
+                return ["setprop", ["obj", i], p["name"], self.hval(TY_OF[p["type"]])]
             return ["call", ["obj", i], sl["name"], []]
         if not targets:
             k = "log"
